@@ -109,12 +109,11 @@ theorem closers_pop_on_every_path : ∀ f ∈ closers, ∀ (o : Oracle), o.respe
     ∀ (d : Nat) (tr : List Visit), (exec o f.2 ⟨d + 1, tr⟩).1.depth = d :=
   fun f hf => closes_sound _ f.2 (closers_close f hf)
 
-/-- PARTIAL.  The scripting environment of `prepare` (`with prepare() as env: …`, `prepare()` … `closer()`) is
-balanced for every oracle that does not raise inside `_process_finished_callbacks`.  Missing: the closer runs the
-finished callbacks *before* `ctx.end()` and outside any try/finally, so a finished callback that raises leaves the
-frame pushed (`scripting_closer_leaks_when_a_finished_callback_raises`, finding F-C13b). -/
-theorem scripting_env_balanced_partial : ∀ f ∈ scriptingEnv, ∀ (o : Oracle),
-    o.respects (quietList (noRaise ++ finishedCallbackSites)) → ∀ c : Cfg, (exec o f.2 c).1.depth = c.depth :=
+/-- The scripting environment of `prepare` (`with prepare() as env: …`, `prepare()` … `closer()`) is balanced for
+every oracle — in particular when a finished callback run by the closer raises (F-C13b, repaired by 87e9fa7: the
+closer now ends the request context in a `finally`). -/
+theorem scripting_env_balanced : ∀ f ∈ scriptingEnv, ∀ (o : Oracle),
+    o.respects (quietList noRaise) → ∀ c : Cfg, (exec o f.2 c).1.depth = c.depth :=
   fun f hf => balanced_sound _ f.2 (by revert f; decide)
 
 /-- the schedule of F-C13b: everything in `prepare` succeeds, the closer finds one finished callback, it raises -/
@@ -123,11 +122,17 @@ def closerLeakOracle : Oracle :=
     takes := fun s _ => s == siteCloserIf,
     iters := fun s _ => if s == siteFinWhile then 1 else 0 }
 
-/-- F-C13b witness (replayed on the real code by the harness): with that schedule `prepare(); …; closer()` ends one
-frame above where it started, and the schedule raises at no site of the total-constructor list. -/
-theorem scripting_closer_leaks_when_a_finished_callback_raises :
-    (exec closerLeakOracle prepare_then_closer ⟨0, []⟩).1.depth = 1 ∧
+/-- the closer as it was before 87e9fa7: finished callbacks, then `ctx.end()`, no `finally` -/
+def oldPrepareCloser : Stmt :=
+  .seq (.ite siteCloserIf (.scope process_finished_callbacks) .skip) (.scope RequestContext_end)
+
+/-- Regression fact (F-C13b): on its schedule the current `prepare` … `closer` raises and is back at the entry depth,
+while the same scope with the OLD closer ended one frame up, and the analysis rejects the old closer. -/
+theorem scripting_closer_pops_when_a_finished_callback_raises :
+    (exec closerLeakOracle prepare_then_closer ⟨0, []⟩).1.depth = 0 ∧
     (exec closerLeakOracle prepare_then_closer ⟨0, []⟩).2 = .raised ∧
+    (exec closerLeakOracle (.seq (.scope prepare) (.tryFinally .skip (.scope oldPrepareCloser))) ⟨0, []⟩).1.depth = 1 ∧
+    closes (quietList noRaise) oldPrepareCloser = false ∧
     (∀ s ∈ noRaise, ∀ k < 4, closerLeakOracle.raises s k = false) := by decide
 
 /-- non-vacuity: an oracle respecting the quiet list exists and does raise elsewhere; balanced statements with a
